@@ -4,5 +4,8 @@ A switch that is not of the transcribed form is reported by the translator as th
 nothing is then claimed from the source text and the correspondence alone carries the dispatch (budgets ×4). -/
 namespace Rules.Tie
 theorem dispatch_tie : Generated.dispatch = Expected.dispatch ∨ Generated.dispatch = [("unrecognised", "")] := by decide +kernel
-theorem litOps_tie : Generated.litOps = Expected.litOps := by decide +kernel
+/-- every literal visitor selects the expected Operation type, or selects it in a form the translator does not read
+(`unrecognised`: nothing claimed); none is missing and none selects anything else -/
+theorem litOps_tie : (Generated.litOps.all (rowOK Expected.litOps) &&
+    Expected.litOps.all (fun e => Generated.litOps.any (fun r => r.1 == e.1))) = true := by decide +kernel
 end Rules.Tie
